@@ -188,7 +188,7 @@ def write_replay(prop_id: str, n: int, payload: dict) -> str:
     payload.setdefault("seed", SEED)
     payload.setdefault("replay_cmd", f"./check {prop_id} --replay replays/{os.path.basename(path)}")
     with open(path, "w") as f:
-        json.dump(payload, f, indent=1, ensure_ascii=False, default=str)
+        json.dump(payload, f, indent=1, ensure_ascii=True, default=str)
     return os.path.relpath(path, VERIF)
 
 
@@ -196,7 +196,7 @@ def write_evidence(prop_id: str, ev: dict):
     d = os.path.join(VERIF, "evidence")
     os.makedirs(d, exist_ok=True)
     with open(os.path.join(d, prop_id + ".json"), "w") as f:
-        json.dump(ev, f, indent=1, ensure_ascii=False, default=str)
+        json.dump(ev, f, indent=1, ensure_ascii=True, default=str)
 
 
 class Ctx:
